@@ -146,6 +146,26 @@ func uidParams(fn *ssa.Function) []*ssa.Parameter {
 func mapLiteralKeys(m ssa.Value) map[string][]ssa.Value {
 	out := map[string][]ssa.Value{}
 	mm, ok := core.Strip(m).(*ssa.MakeMap)
+	if !ok {
+		// the update assembled by a helper that returns the map (`upd := pud.subChangesSince(..)`)
+		if call, isCall := core.Strip(m).(*ssa.Call); isCall {
+			if g := call.Call.StaticCallee(); g != nil && core.InModule(g) && len(g.Blocks) > 0 {
+				var made []*ssa.MakeMap
+				nret := 0
+				core.AllInstrs(g, func(in ssa.Instruction) {
+					if ret, isRet := in.(*ssa.Return); isRet && len(ret.Results) >= 1 {
+						nret++
+						if m2, isM := core.Strip(ret.Results[0]).(*ssa.MakeMap); isM {
+							made = append(made, m2)
+						}
+					}
+				})
+				if nret == 1 && len(made) == 1 {
+					mm, ok = made[0], true
+				}
+			}
+		}
+	}
 	if !ok || mm.Referrers() == nil {
 		return out
 	}
